@@ -333,3 +333,35 @@ func vC07DescRRs(l []vC07RRSpec) []string {
 	}
 	return out
 }
+
+// vC07FromRR describes a record of a reply the way the model sees it
+func vC07FromRR(rr dns.RR) vC07RRSpec {
+	h := rr.Header()
+	sp := vC07RRSpec{owner: vC07Parse(h.Name), rrtype: h.Rrtype, class: h.Class, ttl: h.Ttl}
+	switch v := rr.(type) {
+	case *dns.A:
+		sp.ip = []byte(v.A.To4())
+	case *dns.AAAA:
+		sp.ip = []byte(v.AAAA.To16())
+	case *dns.NS:
+		sp.target = vC07Parse(v.Ns)
+	case *dns.CNAME:
+		sp.target = vC07Parse(v.Target)
+	case *dns.DNAME:
+		sp.target = vC07Parse(v.Target)
+	case *dns.RRSIG:
+		sp.covered = v.TypeCovered
+	}
+	return sp
+}
+
+func vC07FromRRs(rrs []dns.RR) []vC07RRSpec {
+	var out []vC07RRSpec
+	for _, rr := range rrs {
+		if rr.Header().Rrtype == dns.TypeOPT {
+			continue
+		}
+		out = append(out, vC07FromRR(rr))
+	}
+	return out
+}
